@@ -416,4 +416,44 @@ func checkCondUse(c *Ctx, m *shimModel, fn *ssa.Function, method string, needLoc
 		}
 	}
 	c.Floor("R2.cond", n, 1, shortName(method)+" call in "+fn.Name())
+	if needLock {
+		// all waiters of a code are released together: a waiter does not write state that the other waiters of the
+		// same code read (a flag reset on entry makes the woken waiters go back to sleep when a new one arrives)
+		nSt := 0
+		for _, tf := range w.Tree(fn) {
+			if tf != fn && !w.transparent(tf) {
+				continue
+			}
+			for _, b := range tf.Blocks {
+				for _, ins := range b.Instrs {
+					st, ok := ins.(*ssa.Store)
+					if !ok {
+						continue
+					}
+					root := st.Addr
+					for hop := 0; hop < 6; hop++ {
+						switch x := root.(type) {
+						case *ssa.FieldAddr:
+							root = x.X
+							continue
+						case *ssa.IndexAddr:
+							root = x.X
+							continue
+						case *ssa.UnOp:
+							root = x.X
+							continue
+						}
+						break
+					}
+					if w.canon(fn, root) == ssa.Value(fn.Params[0]) {
+						nSt++
+						c.Bad("R2.cond", fn.Name()+"|a waiter writes no state shared with the other waiters", w.Pos(st.Pos()), "the waiting method stores into the server ("+w.ExprIn(fn, st.Addr)+"): state read by the other waiters of the same code is reset by a newcomer, so a wake-up can be lost")
+					}
+				}
+			}
+		}
+		if nSt == 0 {
+			c.Ok("R2.cond", fn.Name()+"|a waiter writes no state shared with the other waiters", w.FnPos(fn), "no store through the receiver in the waiting method")
+		}
+	}
 }
